@@ -22,8 +22,8 @@ from spec import table
 from sx import rt
 from sx.core import ctx
 
-BOUNDS = {"quick": {"A": "operand shapes over key pools per level [ab,ab], [a,a,ab] and [ab,a,a] (every key absent / leaf / nested), every frozenset iteration order", "B": "1..3 files from the pool {a.json, b.json, c.v2.json, d.json}, every glob order, dict documents of depth <= 1 over keys {a,b} / list documents and v2 documents of <= 2 entries x <= 2 codes"},
-          "thorough": {"A": "key pools per level [abc,abc], [ab,ab,ab], [a,a,a,ab]", "B": "as quick with depth-2 dict documents"}}
+BOUNDS = {"quick": {"A": "operand shapes over key pools per level [ab,ab], [a,a,ab] and [ab,a,a] (every key absent / leaf / nested), every frozenset iteration order", "B": "1..3 files from the pool {a.json, b.json, c.v2.json, d.json}, every glob order; dict documents over keys {a,b}: nested one level for 1-2 files, flat for 3 files; list documents and v2 documents of <= 2 entries x <= 2 codes"},
+          "thorough": {"A": "key pools per level [abc,abc], [ab,ab,ab], [a,a,a,ab]", "B": "as quick, single dict documents nested two levels"}}
 STUBS = ["importlib.resources.files / Path.glob / Path.open replaced by in-memory stub paths (json.load runs for real on the generated text)", "frozenset iteration order = fork"]
 ASSUMPTIONS = ["leaves are opaque to the code under test (it never inspects them); the exhaustive part is the shape tree, the solver only decides leaf identity",
                "overlay files taking effect in validation is shown by C01..C11 reading the same files through the reference merge (SX_ROOT / edited data are re-read on every run)"]
@@ -49,7 +49,7 @@ def jobs(tier, seed):
             out.append({"kind": "A", "levels": ["ab", "a", "a"], "pin": p})
     for n in (1, 2, 3):
         for kind in ("dict", "list"):
-            out.append({"kind": "B", "n": n, "doc": kind, "depth": 2 if tier == "thorough" else 1})
+            out.append({"kind": "B", "n": n, "doc": kind, "depth": (1 if n < 3 else 0) + (1 if tier == "thorough" and n == 1 else 0)})
     return out
 
 
